@@ -1,3 +1,426 @@
+// vrewrite instruments Go source files for the vsched controlled scheduler.
+//
+//	vrewrite -out DIR -pkg NAME file.go...
+//
+// It rewrites, by syntax alone:
+//
+//	make(chan T, n)      -> vsched.Make[T](n)
+//	chan T (any dir)     -> *vsched.Chan[T]
+//	c <- v               -> c.Send(v)
+//	<-c                  -> c.Recv()        (v, ok := <-c -> c.Recv2())
+//	close(c)             -> c.Close()
+//	select { ... }       -> switch vsched.Select(hasDefault, cases...) { case i: ... }
+//	go f(x)              -> vsched.Go(func() { f(x) })
+//	import "sync"        -> vsync shim;  import "context" -> vctx shim
+//
+// Anything it does not understand (receive with assignment inside select,
+// range over a channel, len/cap of a channel) is either rejected here or fails
+// to type-check against the shim, so the build breaks loudly instead of
+// exploring a program that differs from the source. Comments are dropped.
 package main
 
-func main() {}
+import (
+	"bytes"
+	"flag"
+	"fmt"
+	"go/ast"
+	"go/format"
+	"go/parser"
+	"go/token"
+	"os"
+	"path/filepath"
+	"strconv"
+	"strings"
+)
+
+const (
+	vschedPath = "golang.org/x/net/internal/zzverif/vsched"
+	vsyncPath  = "golang.org/x/net/internal/zzverif/vsync"
+	vctxPath   = "golang.org/x/net/internal/zzverif/vctx"
+)
+
+func fatal(f string, a ...any) {
+	fmt.Fprintf(os.Stderr, "vrewrite: "+f+"\n", a...)
+	os.Exit(1)
+}
+
+func sel(x, name string) ast.Expr {
+	return &ast.SelectorExpr{X: ast.NewIdent(x), Sel: ast.NewIdent(name)}
+}
+
+type rewriter struct {
+	fset *token.FileSet
+	used bool
+	file string
+}
+
+func (r *rewriter) chanType(elem ast.Expr) ast.Expr {
+	r.used = true
+	return &ast.StarExpr{X: &ast.IndexExpr{X: sel("vsched", "Chan"), Index: elem}}
+}
+
+// expr rewrites an expression tree bottom-up.
+func (r *rewriter) expr(e ast.Expr) ast.Expr {
+	if e == nil {
+		return nil
+	}
+	switch x := e.(type) {
+	case *ast.ChanType:
+		return r.chanType(r.expr(x.Value))
+	case *ast.UnaryExpr:
+		x.X = r.expr(x.X)
+		if x.Op == token.ARROW {
+			return &ast.CallExpr{Fun: &ast.SelectorExpr{X: x.X, Sel: ast.NewIdent("Recv")}}
+		}
+		return x
+	case *ast.CallExpr:
+		if id, ok := x.Fun.(*ast.Ident); ok {
+			switch id.Name {
+			case "make":
+				if len(x.Args) >= 1 {
+					if ct, ok := x.Args[0].(*ast.ChanType); ok {
+						r.used = true
+						n := ast.Expr(&ast.BasicLit{Kind: token.INT, Value: "0"})
+						if len(x.Args) == 2 {
+							n = r.expr(x.Args[1])
+						}
+						return &ast.CallExpr{Fun: &ast.IndexExpr{X: sel("vsched", "Make"), Index: r.expr(ct.Value)}, Args: []ast.Expr{n}}
+					}
+				}
+			case "close":
+				if len(x.Args) == 1 {
+					return &ast.CallExpr{Fun: &ast.SelectorExpr{X: r.expr(x.Args[0]), Sel: ast.NewIdent("Close")}}
+				}
+			case "len", "cap":
+				// left alone: on a *vsched.Chan this does not type-check (intended)
+			}
+		}
+		x.Fun = r.expr(x.Fun)
+		for i := range x.Args {
+			x.Args[i] = r.expr(x.Args[i])
+		}
+		return x
+	case *ast.ParenExpr:
+		x.X = r.expr(x.X)
+		return x
+	case *ast.SelectorExpr:
+		x.X = r.expr(x.X)
+		return x
+	case *ast.StarExpr:
+		x.X = r.expr(x.X)
+		return x
+	case *ast.BinaryExpr:
+		x.X, x.Y = r.expr(x.X), r.expr(x.Y)
+		return x
+	case *ast.IndexExpr:
+		x.X, x.Index = r.expr(x.X), r.expr(x.Index)
+		return x
+	case *ast.IndexListExpr:
+		x.X = r.expr(x.X)
+		for i := range x.Indices {
+			x.Indices[i] = r.expr(x.Indices[i])
+		}
+		return x
+	case *ast.SliceExpr:
+		x.X, x.Low, x.High, x.Max = r.expr(x.X), r.expr(x.Low), r.expr(x.High), r.expr(x.Max)
+		return x
+	case *ast.TypeAssertExpr:
+		x.X, x.Type = r.expr(x.X), r.expr(x.Type)
+		return x
+	case *ast.KeyValueExpr:
+		x.Key, x.Value = r.expr(x.Key), r.expr(x.Value)
+		return x
+	case *ast.CompositeLit:
+		x.Type = r.expr(x.Type)
+		for i := range x.Elts {
+			x.Elts[i] = r.expr(x.Elts[i])
+		}
+		return x
+	case *ast.FuncLit:
+		r.funcType(x.Type)
+		r.block(x.Body)
+		return x
+	case *ast.ArrayType:
+		x.Len, x.Elt = r.expr(x.Len), r.expr(x.Elt)
+		return x
+	case *ast.MapType:
+		x.Key, x.Value = r.expr(x.Key), r.expr(x.Value)
+		return x
+	case *ast.StructType:
+		r.fields(x.Fields)
+		return x
+	case *ast.InterfaceType:
+		r.fields(x.Methods)
+		return x
+	case *ast.FuncType:
+		r.funcType(x)
+		return x
+	case *ast.Ellipsis:
+		x.Elt = r.expr(x.Elt)
+		return x
+	case *ast.Ident, *ast.BasicLit:
+		return e
+	default:
+		fatal("%s: unsupported expression %T", r.file, e)
+	}
+	return e
+}
+
+func (r *rewriter) fields(fl *ast.FieldList) {
+	if fl == nil {
+		return
+	}
+	for _, f := range fl.List {
+		f.Type = r.expr(f.Type)
+	}
+}
+
+func (r *rewriter) funcType(ft *ast.FuncType) {
+	if ft == nil {
+		return
+	}
+	r.fields(ft.TypeParams)
+	r.fields(ft.Params)
+	r.fields(ft.Results)
+}
+
+func (r *rewriter) block(b *ast.BlockStmt) {
+	if b == nil {
+		return
+	}
+	for i := range b.List {
+		b.List[i] = r.stmt(b.List[i])
+	}
+}
+
+func (r *rewriter) stmts(l []ast.Stmt) []ast.Stmt {
+	for i := range l {
+		l[i] = r.stmt(l[i])
+	}
+	return l
+}
+
+func (r *rewriter) stmt(s ast.Stmt) ast.Stmt {
+	if s == nil {
+		return nil
+	}
+	switch x := s.(type) {
+	case *ast.SendStmt:
+		return &ast.ExprStmt{X: &ast.CallExpr{Fun: &ast.SelectorExpr{X: r.expr(x.Chan), Sel: ast.NewIdent("Send")}, Args: []ast.Expr{r.expr(x.Value)}}}
+	case *ast.ExprStmt:
+		x.X = r.expr(x.X)
+		return x
+	case *ast.AssignStmt:
+		if len(x.Lhs) == 2 && len(x.Rhs) == 1 {
+			if u, ok := x.Rhs[0].(*ast.UnaryExpr); ok && u.Op == token.ARROW {
+				x.Rhs[0] = &ast.CallExpr{Fun: &ast.SelectorExpr{X: r.expr(u.X), Sel: ast.NewIdent("Recv2")}}
+				for i := range x.Lhs {
+					x.Lhs[i] = r.expr(x.Lhs[i])
+				}
+				return x
+			}
+		}
+		for i := range x.Lhs {
+			x.Lhs[i] = r.expr(x.Lhs[i])
+		}
+		for i := range x.Rhs {
+			x.Rhs[i] = r.expr(x.Rhs[i])
+		}
+		return x
+	case *ast.GoStmt:
+		r.used = true
+		call := r.expr(x.Call).(*ast.CallExpr)
+		return &ast.ExprStmt{X: &ast.CallExpr{Fun: sel("vsched", "Go"), Args: []ast.Expr{
+			&ast.FuncLit{Type: &ast.FuncType{Params: &ast.FieldList{}}, Body: &ast.BlockStmt{List: []ast.Stmt{&ast.ExprStmt{X: call}}}},
+		}}}
+	case *ast.DeferStmt:
+		x.Call = r.expr(x.Call).(*ast.CallExpr)
+		return x
+	case *ast.ReturnStmt:
+		for i := range x.Results {
+			x.Results[i] = r.expr(x.Results[i])
+		}
+		return x
+	case *ast.BlockStmt:
+		r.block(x)
+		return x
+	case *ast.IfStmt:
+		x.Init = r.stmt(x.Init)
+		x.Cond = r.expr(x.Cond)
+		r.block(x.Body)
+		x.Else = r.stmt(x.Else)
+		return x
+	case *ast.ForStmt:
+		x.Init = r.stmt(x.Init)
+		x.Cond = r.expr(x.Cond)
+		x.Post = r.stmt(x.Post)
+		r.block(x.Body)
+		return x
+	case *ast.RangeStmt:
+		x.Key, x.Value, x.X = r.expr(x.Key), r.expr(x.Value), r.expr(x.X)
+		r.block(x.Body)
+		return x
+	case *ast.SwitchStmt:
+		x.Init = r.stmt(x.Init)
+		x.Tag = r.expr(x.Tag)
+		for _, c := range x.Body.List {
+			cc := c.(*ast.CaseClause)
+			for i := range cc.List {
+				cc.List[i] = r.expr(cc.List[i])
+			}
+			cc.Body = r.stmts(cc.Body)
+		}
+		return x
+	case *ast.TypeSwitchStmt:
+		x.Init = r.stmt(x.Init)
+		x.Assign = r.stmt(x.Assign)
+		for _, c := range x.Body.List {
+			cc := c.(*ast.CaseClause)
+			for i := range cc.List {
+				cc.List[i] = r.expr(cc.List[i])
+			}
+			cc.Body = r.stmts(cc.Body)
+		}
+		return x
+	case *ast.SelectStmt:
+		return r.selectStmt(x)
+	case *ast.LabeledStmt:
+		x.Stmt = r.stmt(x.Stmt)
+		return x
+	case *ast.IncDecStmt:
+		x.X = r.expr(x.X)
+		return x
+	case *ast.DeclStmt:
+		r.genDecl(x.Decl.(*ast.GenDecl))
+		return x
+	case *ast.BranchStmt, *ast.EmptyStmt:
+		return s
+	default:
+		fatal("%s: unsupported statement %T", r.file, s)
+	}
+	return s
+}
+
+func (r *rewriter) selectStmt(x *ast.SelectStmt) ast.Stmt {
+	r.used = true
+	hasDefault := false
+	var cases []ast.Expr
+	var clauses []ast.Stmt
+	idx := 0
+	for _, c := range x.Body.List {
+		cc := c.(*ast.CommClause)
+		body := r.stmts(cc.Body)
+		if cc.Comm == nil {
+			hasDefault = true
+			clauses = append(clauses, &ast.CaseClause{List: []ast.Expr{&ast.UnaryExpr{Op: token.SUB, X: &ast.BasicLit{Kind: token.INT, Value: "1"}}}, Body: body})
+			continue
+		}
+		switch cm := cc.Comm.(type) {
+		case *ast.ExprStmt:
+			u, ok := cm.X.(*ast.UnaryExpr)
+			if !ok || u.Op != token.ARROW {
+				fatal("%s: unsupported select communication", r.file)
+			}
+			cases = append(cases, &ast.CallExpr{Fun: &ast.SelectorExpr{X: r.expr(u.X), Sel: ast.NewIdent("RecvCase")}})
+		case *ast.SendStmt:
+			cases = append(cases, &ast.CallExpr{Fun: &ast.SelectorExpr{X: r.expr(cm.Chan), Sel: ast.NewIdent("SendCase")}, Args: []ast.Expr{r.expr(cm.Value)}})
+		default:
+			fatal("%s:%v: select clause with assignment is not supported by vrewrite", r.file, r.fset.Position(cc.Pos()))
+		}
+		clauses = append(clauses, &ast.CaseClause{List: []ast.Expr{&ast.BasicLit{Kind: token.INT, Value: strconv.Itoa(idx)}}, Body: body})
+		idx++
+	}
+	clauses = append(clauses, &ast.CaseClause{List: nil, Body: []ast.Stmt{
+		&ast.ExprStmt{X: &ast.CallExpr{Fun: ast.NewIdent("panic"), Args: []ast.Expr{&ast.BasicLit{Kind: token.STRING, Value: `"vsched: unreachable select arm"`}}}},
+	}})
+	args := []ast.Expr{ast.NewIdent(strconv.FormatBool(hasDefault))}
+	args = append(args, cases...)
+	return &ast.SwitchStmt{
+		Tag:  &ast.CallExpr{Fun: sel("vsched", "Select"), Args: args},
+		Body: &ast.BlockStmt{List: clauses},
+	}
+}
+
+func (r *rewriter) genDecl(d *ast.GenDecl) {
+	for _, sp := range d.Specs {
+		switch s := sp.(type) {
+		case *ast.ValueSpec:
+			s.Type = r.expr(s.Type)
+			for i := range s.Values {
+				s.Values[i] = r.expr(s.Values[i])
+			}
+		case *ast.TypeSpec:
+			r.fields(s.TypeParams)
+			s.Type = r.expr(s.Type)
+		}
+	}
+}
+
+func main() {
+	out := flag.String("out", "", "output directory")
+	pkg := flag.String("pkg", "", "package name of the output files")
+	flag.Parse()
+	if *out == "" || *pkg == "" || flag.NArg() == 0 {
+		fatal("usage: vrewrite -out DIR -pkg NAME file.go...")
+	}
+	for _, path := range flag.Args() {
+		fset := token.NewFileSet()
+		f, err := parser.ParseFile(fset, path, nil, parser.SkipObjectResolution)
+		if err != nil {
+			fatal("%v", err)
+		}
+		r := &rewriter{fset: fset, file: path}
+		f.Name = ast.NewIdent(*pkg)
+		f.Doc = nil
+		f.Comments = nil
+		// imports
+		for _, im := range f.Imports {
+			p, _ := strconv.Unquote(im.Path.Value)
+			switch p {
+			case "sync":
+				im.Name = ast.NewIdent("sync")
+				im.Path.Value = strconv.Quote(vsyncPath)
+			case "context":
+				im.Name = ast.NewIdent("context")
+				im.Path.Value = strconv.Quote(vctxPath)
+			}
+		}
+		for _, d := range f.Decls {
+			switch x := d.(type) {
+			case *ast.GenDecl:
+				x.Doc = nil
+				if x.Tok != token.IMPORT {
+					r.genDecl(x)
+				}
+			case *ast.FuncDecl:
+				x.Doc = nil
+				r.fields(x.Recv)
+				r.funcType(x.Type)
+				r.block(x.Body)
+			}
+		}
+		// always import vsched (blank use keeps it legal when unused)
+		imp := &ast.GenDecl{Tok: token.IMPORT, Specs: []ast.Spec{&ast.ImportSpec{Path: &ast.BasicLit{Kind: token.STRING, Value: strconv.Quote(vschedPath)}}}}
+		f.Decls = append([]ast.Decl{imp}, f.Decls...)
+		use := &ast.GenDecl{Tok: token.VAR, Specs: []ast.Spec{&ast.ValueSpec{Names: []*ast.Ident{ast.NewIdent("_")}, Values: []ast.Expr{sel("vsched", "Yield")}}}}
+		f.Decls = append(f.Decls, use)
+		var buf bytes.Buffer
+		if err := format.Node(&buf, token.NewFileSet(), f); err != nil {
+			fatal("%s: %v", path, err)
+		}
+		// re-parse as a sanity check and to normalise formatting
+		src, err := format.Source(buf.Bytes())
+		if err != nil {
+			fatal("%s: rewritten source does not parse: %v\n%s", path, err, buf.String())
+		}
+		rel := strings.TrimPrefix(filepath.Clean(path), "/")
+		parts := strings.Split(rel, "/")
+		if len(parts) > 3 {
+			parts = parts[len(parts)-3:]
+		}
+		name := "zz_rw_" + strings.Join(parts, "_")
+		if err := os.WriteFile(filepath.Join(*out, name), src, 0o644); err != nil {
+			fatal("%v", err)
+		}
+	}
+}
